@@ -77,28 +77,32 @@ def _race_extra(ctx, spec):
 
 PROP = dict(
     level='proof',
-    regen=['filedefs'],
+    regen=['filedefs', 'mesgdef', 'profiletables13'],   # the last two: the typed-struct tables and the factory dump of C13 (content theorems, family op filedefc)
     theorems=['Fit.C14.C14_tables_ok', 'Fit.C14.C14_build_keeps_last', 'Fit.C14.C14_conservation',
               'Fit.C14.C14_conservation_no_file_id', 'Fit.C14.C14_prefix_order', 'Fit.C14.C14_sort_stable',
               'Fit.C14.C14_sort_unique', 'Fit.C14.C14_timestampless_first', 'Fit.C14.C14_sorted_stable_partial',
               'Fit.C14.C14_sorted_suffix', 'Fit.C14.C14_KF2_witness',
+              'Fit.C14.C14_content_tables_ok', 'Fit.C14.C14_content_no_panic', 'Fit.C14.C14_content_nil_fieldbase_panics',
+              'Fit.C14.C14_content_model_eq', 'Fit.C14.C14_content_norm', 'Fit.C14.C14_content_is_typed_normal',
+              'Fit.C14.C14_content_first_sentence_partial', 'Fit.C14.C14_content_conservation_no_file_id',
               'Fit.C14.C14_listener_inv', 'Fit.C14.C14_listener_deadlock_free', 'Fit.C14.C14_listener_eq_sequential',
               'Fit.C14.C14_listener_never_deadlocked', 'Fit.C14.C14_listener_no_carry_over', 'Fit.C14.C14_listener_run_is_path',
               'Fit.C14.C14_listener_unbuffered_handover', 'Fit.C14.C14_listener_buffer0_completes',
               'Fit.C14.C14_listener_builds_file'],
     extra=_extra,
-    families=[dict(name='filedef', prop=True), dict(name='listener', spec=True)],
+    families=[dict(name='filedef', prop=True, spec=True), dict(name='listener', spec=True)],
     trusted_base=STD_TRUST + [
         "the listener is a hand-written transition system over listener.go (channel semantics per the Go spec: buffered send/receive, unbuffered rendezvous, close); it is tied to the code by behaviour: results of every File(), and deadlock / termination, for buffer sizes 0..8, 64, 128, chained sequences, Reset/Close reuse, GOMAXPROCS 1/2/16, against the model run under a seeded scheduler and against the one-thread specification",
         "deadlock of the real listener is observed by a stop-the-world goroutine snapshot (calling goroutine and every listener worker blocked in channel operations), not by a timeout",
         "data-race freedom of the compiled listener is sampled by the race detector (thorough tier), not proved; proved is exclusive ownership of slices and of the file cell in the model",
         "file-type tables (slot kinds, emission order, sort start, candidate-field modes) are regenerated on every run by black-box probing of filedef.PredefinedFileSet() with tagged messages",
+        "content of messages: the typed-struct tables of C13 (fitharness regen mesgdef) and the factory dump; that a file type's Add/ToFIT use mesgdef.NewXxx / ToMesg of the message number's own struct and keep other messages verbatim is tied by the op filedefc (real messages in, every output message compared in full with the model and with the demanded normal forms)",
     ],
     assumptions=["slices.SortStableFunc returns the stable sorted permutation (unique: sortStable_unique)"],
 )
 
 TEXT = dict(
-    technique='Lean 4 proof: multiset conservation / prefix / unique stable sort over file-type tables regenerated by black-box probing; invariant, deadlock freedom and refinement to a one-thread specification for a labelled transition system of the listener (every buffer size >= 0, every script, every interleaving); differential tie + race detector',
-    text='For all 17 file types (tables re-probed from the code on every run) and every message list: ToFIT(build) is a permutation of the input with singletons keeping their last occurrence, starts with file_id / developer_data_id / field_description, and the rest is the unique stable sort by the timestamp key for the 9 types that sort everything (the other 8 sort only unrelated messages or nothing: open finding KF-C14-2). The listener model (pool/queue/done channels, OnMesg/File/Close/Reset, worker loop) keeps every pooled slice exclusively owned, never deadlocks and returns exactly the files of the one-thread specification for every buffer size >= 0 (0 = unbuffered message channel with a one-slice pool: synchronous hand-over), script (Reset through 0 and back included) and interleaving. The deadlock of buffer size 0 (F15) was reported by this check and is repaired in /repo (fixed entry KF-C14-1); reverting the repair makes the correspondence and the one-thread specification fail on every operation that delivers a message at size 0.',
-    note='Trusted: Lean kernel; the probe that regenerates the file-type tables; the hand-written listener model and Go channel semantics; harness/driver protocol. Content of messages is an opaque digest (typed normalisation is C13). Data-race freedom of the binary is sampled (-race), not proved.',
+    technique='Lean 4 proof: multiset conservation / prefix / unique stable sort over file-type tables regenerated by black-box probing, generic in the message representation and instantiated on real protocol messages where Add = C13 ofMesg and ToFIT = C13 toMesg (content = typedNormal, by the C13 theorem); invariant, deadlock freedom and refinement to a one-thread specification for a labelled transition system of the listener (every buffer size >= 0, every script, every interleaving); differential tie + race detector',
+    text='For all 17 file types (tables re-probed from the code on every run) and every message list: ToFIT(build) is a permutation of the input with singletons keeping their last occurrence, starts with file_id / developer_data_id / field_description, and the rest is the unique stable sort by the timestamp key for the 9 types that sort everything (the other 8 sort only unrelated messages or nothing: open finding KF-C14-2). On real protocol messages (C14_content_*): Add stores mesgdef.NewXxx(&m) (C13 ofMesg), ToFIT emits ToMesg (C13 toMesg) and sorts on the emitted messages; by C13_mesg_struct_mesg this equals the same layer applied to the normal forms, so every output message is typedNormal of an input message (typed kinds) or an input message itself (unrelated kinds) and the whole first sentence of the property holds of real messages (C14_content_first_sentence_partial). The listener model (pool/queue/done channels, OnMesg/File/Close/Reset, worker loop) keeps every pooled slice exclusively owned, never deadlocks and returns exactly the files of the one-thread specification for every buffer size >= 0 (0 = unbuffered message channel with a one-slice pool: synchronous hand-over), script (Reset through 0 and back included) and interleaving. The deadlock of buffer size 0 (F15) was reported by this check and is repaired in /repo (fixed entry KF-C14-1); reverting the repair makes the correspondence and the one-thread specification fail on every operation that delivers a message at size 0.',
+    note='Trusted: Lean kernel; the probe that regenerates the file-type tables; the hand-written listener model and Go channel semantics; harness/driver protocol. Content: abstract messages carry an opaque digest (listener model, digest ops); the op filedefc and the C14_content_* theorems are about real messages with the typed normalisation of C13. Data-race freedom of the binary is sampled (-race), not proved.',
 )
